@@ -40,7 +40,26 @@ exact in f64, so every *branch* of `line_segment_distance` and every area is dec
 def exactRegime (cs : List Pt) : Bool :=
   cs.all (fun p => [p.x, p.y].all (fun v =>
     let w := v * 16
-    w.den == 1 && w.num.natAbs < 16777216))
+    w.den == 1 && w.num.natAbs < 16777216)) || dyadicGrid cs
+where
+  /-- the same regime at any dyadic scale: all coordinates are integers below 2^24 times one power of two 2^e
+  (|e| ≤ 300, so that no product underflows or overflows) — scaling by a power of two commutes with every f64 operation -/
+  dyadicGrid (cs : List Pt) : Bool :=
+    let vals := (cs.flatMap (fun p => [p.x, p.y])).filter (· != 0)
+    let val2 (q : Rat) : Option Int :=
+      let d := q.den
+      let k := Nat.log2 d
+      if d != 2 ^ k then none else
+      let n := q.num.natAbs
+      -- 2-adic valuation of the numerator
+      let t := (List.range 64).foldl (fun acc i => if acc == i && n % 2 ^ (i + 1) == 0 then i + 1 else acc) 0
+      some ((t : Int) - (k : Int))
+    match vals.mapM val2 with
+    | none => false
+    | some [] => true
+    | some (v :: vs) =>
+      let e := vs.foldl (fun m x => if x < m then x else m) v
+      e ≥ -300 && e ≤ 300 && vals.all (fun q => let w := q * pow2 (-e); w.den == 1 && w.num.natAbs < 16777216)
 
 /-- how `line_segment_distance` computes the value: equal signatures ⇒ bit-identical results -/
 def distSig (p a b : Pt) : Nat × Rat × Rat :=
